@@ -315,16 +315,32 @@ Definition run_wrap (b : body) (k : out) : out :=
   | BUser id false => ([Ev id; EvEnd id], RVal (Z.of_nat id))
   | _ => ([], ROther)
   end.
-(* WhopLoc.Continue: for wl.Current++; wl.Current < len; wl.Current++ { if wrap != nil {
-     ... &WhopLoc{Method: wl.Method, Current: wl.Current + 1} ... return wrap.Call } } return InnerCall
-   [current] is wl.Current on entry; the next whopper's location starts one past its own index *)
+(* WhopLoc.Continue (repaired, repo_fixes/C10-2.patch): for i := wl.Current+1; i < len; i++ { if wrap != nil {
+     ... &WhopLoc{Method: wl.Method, Current: i} ... return wrap.Call } } return InnerCall
+   [current] is wl.Current: the index of the combination whose whopper is running; the next whopper's
+   location is its own index *)
 Fixpoint continue_whopper (fuel : nat) (cs : list combo) (inner : out) (current : nat) : out :=
   match fuel with
   | O => ([], ROutOfFuel)
   | S k => match wrap_from cs (S current) with
-           | Some (j, b) => run_wrap b (continue_whopper k cs inner (S j))
+           | Some (j, b) => run_wrap b (continue_whopper k cs inner j)
            | None => inner
            end
+  end.
+(* the original: for wl.Current++; ...; wl.Current++ { ... &WhopLoc{Method: wl.Method, Current: wl.Current + 1} ... }
+   the next whopper's location started one past its own index (kept for the refutation only) *)
+Fixpoint continue_whopper_orig (fuel : nat) (cs : list combo) (inner : out) (current : nat) : out :=
+  match fuel with
+  | O => ([], ROutOfFuel)
+  | S k => match wrap_from cs (S current) with
+           | Some (j, b) => run_wrap b (continue_whopper_orig k cs inner (S j))
+           | None => inner
+           end
+  end.
+Definition method_call_orig (cs : list combo) (inner : out) : out :=
+  match wrap_from cs 0 with
+  | Some (i, b) => run_wrap b (continue_whopper_orig (length cs) cs inner i)
+  | None => inner
   end.
 (* Method.Call: the first combination with a whopper gets WhopLoc{Current: i} *)
 Definition method_call (cs : list combo) (inner : out) : out :=
